@@ -151,6 +151,8 @@ def run_project(p):
 
 def multi_file_stage(ck, rng, oracles, thorough, stats, nviol):
     from concurrent.futures import ThreadPoolExecutor
+    import time as _time
+    t0 = _time.time()
     projects = gen_projects(rng, 48 if thorough else 8, 24 if thorough else 4)
     root = lib.fresh_dir("c01_multi")
     mods = []
@@ -258,6 +260,7 @@ def multi_file_stage(ck, rng, oracles, thorough, stats, nviol):
         nviol += 1
         ck.violation(what, replay, independent=True)
     st["disagreements"] = len(live_viol) + len(struct_viol)
+    st["seconds"] = round(_time.time() - t0, 1)
     return nviol
 
 
@@ -472,9 +475,15 @@ def main(tier):
         "evaluations": stats["runs"],
         "distinct_nontrivial": stats["functions"],
         "rule": "generated functions (all constructs of the property's quantifier, nesting <= 4) x oracles; one evaluation = one CPython run "
-                "of one function under one oracle, checked against pyscn's dead ranges; distinct = distinct generated functions",
+                "of one function under one oracle, checked against pyscn's dead ranges; distinct = distinct generated functions; "
+                "plus the multi-file stream (input_distribution.multi_file): projects of 2-5 modules with pairwise disjoint def/class names "
+                "(random modules and dead-original/live-twin pairs with identical line layout, the original sorted before and after its twin, "
+                "files in the root and in a sub-package) analysed in ONE invocation each of `analyze --select complexity,deadcode .`, "
+                "`analyze --select deadcode <files sorted>`, `<files reversed>`, `check --select deadcode .` and `check <files reversed>`; per "
+                "reported file X: no line CPython executes in X lies in any range reported under X (whatever function the row names), every row "
+                "names a def of X and stays inside its lines, no row is reported under a path outside the project",
         "input_distribution": stats,
-        "disagreements_checked": nviol + tie_mism + sem_mism,
+        "disagreements_checked": nviol + tie_mism + sem_mism + stats.get("multi_file", {}).get("disagreements", 0),
         "oracles": len(oracles), "modules": len(mods),
     })
     ck.trusted += ["Coq 8.16.1 kernel; vm_compute for model evaluation",
